@@ -266,8 +266,8 @@ MANIFEST_TEXT = {
         "technique": "Lean 4 parametricity proof over I/O programs + C15 simulation; differential check across entry points, adapter stacks and chunkings",
     },
     "C13": {
-        "text": "Lean theorems: for EVERY program written in the I/O-program language (in particular both sanitizers), every cursor, fault position and error kind, a fault injected at operation k yields the fault-free outcome (run ends before k), Io(e), or - for UnexpectedEof only - the parse error of the map_eof site: never success and never a panic (run_faulty, instantiated as C13_fault_mp4 / C13_fault_webp); every read/skip of the MP4 sanitizer is a map_eof site (EofMapped, proved structurally over the whole program); on the ideal in-memory cursor the MP4 sanitizer never returns Io except InvalidInput/InvalidData for a seek target beyond u64 (C13_memory_mp4). Correspondence: exhaustive fault enumeration over a corpus x six kinds, sync and async; the MP4 model on BufReader(32)-over-faulty-input must reproduce the real outcome at every fault index.",
-        "note": "Trusted: Lean kernel and standard axioms; that the sanitizers are faithfully written as I/O programs (validated differentially incl. index-aligned faulted runs for mp4). C13_memory for webpsan (EofMapped of the webp program) is future work; its fault-free runs are compared with the model.",
+        "text": "Lean theorems: for EVERY program written in the I/O-program language (in particular both sanitizers), every cursor, fault position and error kind, a fault injected at operation k yields the fault-free outcome (run ends before k), Io(e), or - for UnexpectedEof only - the parse error of the map_eof site: never success and never a panic (run_faulty, instantiated as C13_fault_mp4 / C13_fault_webp); every read/skip of the MP4 sanitizer is a map_eof site (EofMapped, proved structurally over the whole program); every read/skip of the WebP sanitizer is a map_eof site too (Webp.sanitizeP_mapped, function by function); on the ideal in-memory cursor neither sanitizer ever returns Io except InvalidInput/InvalidData for a seek target beyond u64 (C13_memory_mp4, C13_memory_webp). Correspondence: exhaustive fault enumeration over a corpus x six kinds, sync and async; the MP4 model on BufReader(32)-over-faulty-input must reproduce the real outcome at every fault index.",
+        "note": "Trusted: Lean kernel and standard axioms; that the sanitizers are faithfully written as I/O programs (validated differentially incl. index-aligned faulted runs for mp4).",
         "technique": "Lean 4 proof by induction over I/O programs (fault propagation, eof-mapping) + exhaustive fault enumeration against the real crates",
     },
     "C06": {
